@@ -15,7 +15,7 @@ initial state — every interleaving of API calls, clock jumps of any size, loop
 timer fired) and executor latencies — for every schedule oracle `nx` that is strictly increasing, every
 assignment `wk` of task ids to workers, any number of tasks and workers.
 -/
-import Kap.Proofs.C17Run
+import Kap.Proofs.C17Live
 import Kap.Proofs.C17Hist
 namespace Kap.Props.C17
 open Kap.C17
@@ -112,19 +112,65 @@ theorem released_is_silent (E : Env) (hincr : Incr E.nx) (acts : List Act)
   obtain ⟨sc, off, last, h1, _⟩ := every_run_is_the_next_due_occurrence E hincr acts post tr id occ runAt h
   rw [hrel] at h1; cases h1
 
-/-! ### liveness at quiescence (stated, not proved) -/
+/-! ### the timer bookkeeping and liveness at quiescence -/
 
-/-- The half of "exactly once" that safety cannot give — no due occurrence is forgotten: after every harness op
-(API call / clock move / finished run, followed by the main loop running until it blocks, with real-timer behaviour
-and no mid-pass race), every queued item that is due is waiting for a BUSY worker. It needs the timer invariants
-(`s.when` ≤ every queued `when`; an armed deadline never lies after max(now, s.when); a deadline in the past fires at
-the next clock movement) and a bound on the loop fuel by the number of workers. NOT PROVED: on every run the driver
-evaluates exactly this clause (`dueIdle`, SPECFAIL due-run-dispatched) on the real scheduler's observed output and the
-model is compared with the real queue, so a violation is found by search, not excluded by proof. -/
+/-- **The loop's re-arm always reaches the head's due time** — in every reachable state with a non-empty queue the
+main loop is running, or a tick is waiting for it, or the timer is armed with a deadline that has ALREADY PASSED
+(a real timer fires at once, the mock at the next clock movement) or is not after the `when` of any queued item.
+This covers the line `s.timer.Reset(ts.Sub(it.When()))` of the main loop, which re-arms with the NEGATIVE duration
+now − when and leaves `s.when` stale: its deadline lies in the past, so the loop is woken again immediately and
+re-tests the head (a busy wait with a real clock — wasteful, but no due run is late by more than one loop turn and
+no API call blocks, because every turn releases the mutex). Hypothesis: no schedule action has a positive sub-second
+offset part (`frac ≤ 0`); with one, `Schedule` arms the timer up to 999 ms after the item's whole-second `when`. -/
+theorem timer_covers_head (E : Env) (hincr : Incr E.nx) (acts : List Act) (hfrac : ∀ a ∈ acts, a.fracOk) :
+    let s := runActs E {} acts
+    s.queue ≠ [] → s.spinning = true ∨ s.tick = true ∨
+      ∃ d, s.timer = some d ∧ (d ≤ s.now * 1000 ∨ ∀ it ∈ s.queue, d ≤ it.whn * 1000) := by
+  intro s hne
+  have ht : TInv s := tinv_runActs hincr acts hfrac tinv_init (good_init E)
+  cases hw : s.swhen with
+  | none => exact absurd (ht.k2 hw) hne
+  | some w =>
+    rcases ht.j w hw with h | h | ⟨d, hd, h⟩
+    · exact Or.inl h
+    · exact Or.inr (Or.inl h)
+    · refine Or.inr (Or.inr ⟨d, hd, ?_⟩)
+      rcases h with h | h
+      · exact Or.inl h
+      · exact Or.inr (fun it hit => Int.le_trans h (ht.k1 w hw it hit))
+
+/-- **No due occurrence is forgotten** (the half of "exactly once" that safety cannot give): in every reachable
+state that is quiescent — the main loop cannot move (parked at its `select` with no tick, or spinning without
+being able to dispatch) and the timer cannot fire — every queued item that is due (`when ≤ now`) is waiting for a
+BUSY worker. So a due run is only ever delayed by a run in progress on its worker. -/
+theorem quiescent_due_runs_wait_for_busy_worker (E : Env) (hincr : Incr E.nx) (acts : List Act)
+    (hfrac : ∀ a ∈ acts, a.fracOk) (hq : Quiescent E (runActs E {} acts)) :
+    ∀ it ∈ (runActs E {} acts).queue, it.whn ≤ (runActs E {} acts).now →
+      (aget (runActs E {} acts).busy (E.wk it.id)).isSome = true :=
+  quiescent_due_busy (good_runActs hincr acts (good_init E))
+    (tinv_runActs hincr acts hfrac tinv_init (good_init E)) hq
+
+/-- Full-strength op-level statement: after every harness op (with no mid-pass race) every due item waits for a
+busy worker. What is missing for it is only that `settle` always ENDS in a quiescent state, i.e. that the loop fuel
+(64) suffices — true when fewer than ~30 workers are in use (every pass that goes round again has made an idle
+worker busy), not proved. -/
 def due_runs_dispatched_stmt : Prop :=
-  ∀ (E : Env), Incr E.nx → (∀ id, E.wk id < 32) → ∀ (ops : List Op),
+  ∀ (E : Env), Incr E.nx → (∀ id, E.wk id < 30) → ∀ (ops : List Op),
+    (∀ op ∈ ops, match op with | .sched _ _ _ _ frac => frac ≤ 0 | _ => True) →
     let s := runOps E {} (ops.map (fun op => ([], op)))
     ∀ it ∈ s.queue, it.whn ≤ s.now → (aget s.busy (E.wk it.id)).isSome = true
+
+/-- … proved under the explicit, decidable hypothesis that the state reached is quiescent. The driver evaluates
+`Quiescent` on the model state after EVERY op of every case (a failure is reported, never skipped), so on everything
+the correspondence run sees the hypothesis is checked, not assumed. -/
+theorem due_runs_dispatched_partial (E : Env) (hincr : Incr E.nx) (ops : List (List Nat × Op))
+    (hfrac : ∀ p ∈ ops, match p.2 with | .sched _ _ _ _ frac => frac ≤ 0 | _ => True)
+    (hq : Quiescent E (runOps E {} ops)) :
+    ∀ it ∈ (runOps E {} ops).queue, it.whn ≤ (runOps E {} ops).now →
+      (aget (runOps E {} ops).busy (E.wk it.id)).isSome = true := by
+  obtain ⟨acts, hacts, hfr⟩ := runOps_acts_frac E ops hfrac {}
+  rw [hacts] at hq ⊢
+  exact quiescent_due_runs_wait_for_busy_worker E hincr acts hfr hq
 
 /-! ### non-vacuity and sensitivity -/
 
@@ -140,7 +186,7 @@ theorem E10_incr : Incr E10.nx := by
 worker, a clock jump over several occurrences, a failing run, a Release while in flight — the history contains
 three executor entries (task 1 at 10 and 20, task 2 at 15), in that order. -/
 example :
-    (runActs E10 {} [.sched 1 0 3 0, .sched 2 1 0 5, .adv 40, .fire, .consume, .iter [], .iter [], .done 1 .ok true,
+    (runActs E10 {} [.sched 1 0 3 0 0, .sched 2 1 0 5 0, .adv 40, .fire, .consume, .iter [], .iter [], .done 1 .ok true,
         .iter [], .rel 2, .done 2 .err false, .iter [], .iter []]).trace.reverse =
       [Ev.sched 1 0 3 0, Ev.sched 2 1 0 5, Ev.clock 40, Ev.start 1 10 13, Ev.finish 1 10, Ev.ckpt 1 10,
        Ev.start 2 15 15, Ev.rel 2, Ev.finish 2 15, Ev.onErr 2, Ev.ckpt 2 15, Ev.onErr 2, Ev.start 1 20 23] := by
